@@ -6,12 +6,20 @@ Local Open Scope N_scope.
 
 Ltac Zify.zify_post_hook ::= Z.to_euclidean_division_equations.
 
-Ltac bd :=
-  repeat (match goal with
-          | |- context [?a <=? ?b] => destruct (N.leb_spec a b); try lia
-          | |- context [?a <? ?b] => destruct (N.ltb_spec a b); try lia
-          | |- context [?a =? ?b] => destruct (N.eqb_spec a b); try lia
-          end).
+Ltac decide_one :=
+  match goal with
+  | |- context [?a <=? ?b] =>
+    first [ replace (a <=? b) with true by (symmetry; apply N.leb_le; lia)
+          | replace (a <=? b) with false by (symmetry; apply N.leb_gt; lia) ]
+  | |- context [?a <? ?b] =>
+    first [ replace (a <? b) with true by (symmetry; apply N.ltb_lt; lia)
+          | replace (a <? b) with false by (symmetry; apply N.ltb_ge; lia) ]
+  | |- context [?a =? ?b] =>
+    first [ replace (a =? b) with true by (symmetry; apply N.eqb_eq; lia)
+          | replace (a =? b) with false by (symmetry; apply N.eqb_neq; lia) ]
+  end.
+(* decide every comparison the hypotheses decide, dropping dead branches as they appear *)
+Ltac decide_all := repeat (decide_one; cbv iota; cbn [andb orb negb]).
 
 (* ------------------------------------------------------------------ encoder -> recogniser *)
 
@@ -19,15 +27,23 @@ Lemma utf8_valid_ascii a r : a <= 127 -> utf8_valid (a :: r) = utf8_valid r.
 Proof. intros H. simpl. apply N.leb_le in H. rewrite H. reflexivity. Qed.
 
 Lemma utf8_valid_2 a b r : 194 <= a <= 223 -> 128 <= b <= 191 -> utf8_valid (a :: b :: r) = utf8_valid r.
-Proof. intros Ha Hb. cbn [utf8_valid]. unfold js_u_tail, js_in_rng. bd; reflexivity. Qed.
+Proof. intros Ha Hb. cbn [utf8_valid]. unfold js_u_tail, js_in_rng. decide_all. reflexivity. Qed.
 
 Lemma utf8_valid_3 a b c r : 224 <= a <= 239 -> 128 <= b <= 191 -> 128 <= c <= 191 ->
   (a = 224 -> 160 <= b) -> (a = 237 -> b <= 159) -> utf8_valid (a :: b :: c :: r) = utf8_valid r.
-Proof. intros Ha Hb Hc H1 H2. cbn [utf8_valid]. unfold js_u_tail, js_in_rng. bd; reflexivity. Qed.
+Proof.
+  intros Ha Hb Hc H1 H2. cbn [utf8_valid]. unfold js_u_tail, js_in_rng.
+  assert (Hcls : a = 224 \/ a = 237 \/ (225 <= a <= 236) \/ (238 <= a <= 239)) by lia.
+  destruct Hcls as [->|[->|[H|H]]]; [specialize (H1 eq_refl)|specialize (H2 eq_refl)| |]; decide_all; reflexivity.
+Qed.
 
 Lemma utf8_valid_4 a b c d r : 240 <= a <= 244 -> 128 <= b <= 191 -> 128 <= c <= 191 -> 128 <= d <= 191 ->
   (a = 240 -> 144 <= b) -> (a = 244 -> b <= 143) -> utf8_valid (a :: b :: c :: d :: r) = utf8_valid r.
-Proof. intros Ha Hb Hc Hd H1 H2. cbn [utf8_valid]. unfold js_u_tail, js_in_rng. bd; reflexivity. Qed.
+Proof.
+  intros Ha Hb Hc Hd H1 H2. cbn [utf8_valid]. unfold js_u_tail, js_in_rng.
+  assert (Hcls : a = 240 \/ a = 244 \/ (241 <= a <= 243)) by lia.
+  destruct Hcls as [->|[->|H]]; [specialize (H1 eq_refl)|specialize (H2 eq_refl)|]; decide_all; reflexivity.
+Qed.
 
 Lemma utf8_enc_valid c r : scalar_value c -> utf8_valid (utf8_enc c ++ r) = utf8_valid r.
 Proof.
